@@ -12,7 +12,7 @@
    planner is refuted (C16_*_legacy_refuted), on the planner and on the protocol. *)
 From Coq Require Import List NArith Bool Permutation.
 From GS Require Import LTS Cluster ClusterLTS ClusterPlan ClusterFix ClusterFixPlan ClusterRun ClusterInv
-     ClusterStep ClusterMain ClusterRound ClusterRoundB ClusterRoundC ClusterHist.
+     ClusterStep ClusterMain ClusterRound ClusterRoundB ClusterRoundC ClusterHist ClusterFsm.
 Import ListNotations.
 Open Scope N_scope.
 
@@ -117,6 +117,15 @@ Theorem C16_old_stopped_before_replacement : forall d ls1 k c i b ls2 s,
   forall c' j b', In (LFactory k c' j b') ls1 -> In (LStopRet j) ls1.
 Proof. exact old_stopped_before_replacement. Qed.
 
+(* The cluster's own state: whenever the loop is idle the FSM is Running -- whatever happened in the
+   rounds before (factory errors, servers that never became ready, cancelled restart delays): a failed
+   start does not affect the cluster's Running state (and by C16_round_converges not the other
+   entries); once Run has finished it is Stopped. *)
+Theorem C16_idle_is_running : forall d ls s,
+  run (step true) (init d) ls = Some s ->
+  (s_pc s = PIdle -> s_fsm s = CRunning) /\ (s_pc s = PFin \/ s_pc s = PRet -> s_fsm s = CStopped).
+Proof. exact (idle_is_running true). Qed.
+
 (* ---- the legacy planner (fx = false, before dec72e6): refuted (F9) ---- *)
 
 (* ids a and a:stop both running, a's configuration changes: in one iteration order the old instance
@@ -162,6 +171,7 @@ Print Assumptions C16_none_leaked.
 Print Assumptions C16_round_converges.
 Print Assumptions C16_serverless_only_after_cancel.
 Print Assumptions C16_old_stopped_before_replacement.
+Print Assumptions C16_idle_is_running.
 Print Assumptions C16_converge_legacy_refuted.
 Print Assumptions C16_none_leaked_legacy_refuted.
 Print Assumptions C16_count_legacy_refuted.
